@@ -246,6 +246,29 @@ class Fn(object):
                         and ev['rhs']['op'] in ('+', '-') and const_of(ev['rhs']['r']) == 1 and sx(ev['rhs']['l']) == sx(ev.get('lhs')):
                     ev['orig_op'] = '='
                     ev['op'] = '++' if ev['rhs']['op'] == '+' else '--'
+        # the variadic forms bitset_set(X.bits, A, B, -1) / bitset_clear(...) are one set / clear per enumerator
+        for b in self.blocks.values():
+            evs = []
+            for ev in b['events']:
+                if ev.get('k') == 'call' and ev.get('callee') in ('bitset_set', 'bitset_clear') and ev.get('args') and isinstance(ev['args'][0], dict) \
+                        and ev['args'][0].get('k') == 'mem' and ev['args'][0].get('field') == 'bits' and const_of(ev['args'][-1]) == -1:
+                    first = True
+                    for a in ev['args'][1:-1]:
+                        ne = {'k': 'bitset' if ev['callee'] == 'bitset_set' else 'bitclear', 'set': ev['args'][0]['base'], 'op': '|=' if ev['callee'] == 'bitset_set' else '&=',
+                              'loc': ev.get('loc'), 'macro': 'BITSET_MULTI_SET' if ev['callee'] == 'bitset_set' else 'BITSET_MULTI_CLEAR'}
+                        if isinstance(a, dict) and a.get('k') == 'enum':
+                            ne['bit'] = a['name']
+                        else:
+                            ne['bitexpr'] = a
+                        if first and 'id' in ev:
+                            ne['id'] = ev['id']
+                        first = False
+                        if 'inl_depth' in ev:
+                            ne['inl_depth'] = ev['inl_depth']
+                        evs.append(ne)
+                    continue
+                evs.append(ev)
+            b['events'] = evs
         self.entry, self.exit = d.get('entry'), d.get('exit')
         self.out = collections.defaultdict(list)
         self.inn = collections.defaultdict(list)
